@@ -105,7 +105,7 @@ def leaf(B, rng, N, kind, pool):
     if kind == "number":
         # includes numbers of modulus exactly 1 that are not fourth roots of unity, and near-units
         return [2, -1, 0.5, 1j, -1j, 1 + 2j, 0, 3.25, 0.6 + 0.8j, -0.8 + 0.6j, complex(np.exp(0.3j)), 0.28 - 0.96j, 1 + 1e-9, -1j * (1 - 1e-12),
-                np.float64(-1.0), np.complex128(1j)][int(rng.integers(16))]
+                np.float64(-1.0), np.complex128(1j), 1.000004, 1j * (1 - 3e-6), -1 + 2e-6j, -0.999995j][int(rng.integers(20))]
     if kind == "pauli":
         return B.Pauli(s(), int(rng.integers(4)))
     if kind == "mono":
@@ -299,7 +299,7 @@ def run_pairs(shard, rec, B):
                 check_trace(rec, B, N, a)
                 check_qutip(rec, B, N, a)
                 check_op(rec, B, N, "neg", a, None)
-                for c in (1, -1, 1j, -1j, 2.5, 0.5 - 1j, 0.6 + 0.8j, -0.8 - 0.6j, complex(np.exp(2.0j))):
+                for c in (1, -1, 1j, -1j, 2.5, 0.5 - 1j, 0.6 + 0.8j, -0.8 - 0.6j, complex(np.exp(2.0j)), 1.000004, 1j * (1 - 3e-6)):
                     check_op(rec, B, N, "mul", c, a)
                     check_op(rec, B, N, "div", a, c)
                 for num in (2, -1.5 + 0.5j):
@@ -408,6 +408,11 @@ def run_trees(shard, rec, B):
             dec = (10.0 ** -rng.integers(0, 13, len(gs))) * np.where(rng.integers(0, 2, len(gs)) == 1, 1, -1) * (1 + rng.random(len(gs)))
             check_reduce(rec, B, N, B.Poly(gs, rng.integers(0, 4, len(gs)), dec.astype(complex)))
             check_reduce(rec, B, N, B.Poly(gs, rng.integers(0, 4, len(gs)), dec.astype(complex)), tol=10.0 ** -int(rng.integers(2, 9)))
+            # an explicit tolerance of zero (0, 0.0, a numpy zero) keeps every non-zero merged coefficient, however small
+            if B.name == "np":
+                tiny = dec.astype(complex) * 1e-6
+                for z in (0, 0.0, np.float64(0.0)):
+                    check_reduce(rec, B, N, B.Poly(gs, rng.integers(0, 4, len(gs)), tiny.copy()), tol=z)
         # linearity of rotations and maps on a polynomial; coefficients untouched
         H = leaf(B, rng, N, "poly", pool)
         hg, hp, hc = B.np(H.gs).reshape(-1, 2 * N).copy(), B.ph(H.ps).copy(), B.cnp(H.cs).copy()
